@@ -43,9 +43,26 @@ TIME = {'quick': 70, 'thorough': 560}
 MIN_NONTRIVIAL = {'quick': 3000, 'thorough': 12000}
 REQUIRED = ('inputs', 'no_hand_cases', 'omaha_inputs', 'greek_inputs',
             'badugi_inputs', 'low_inputs', 'iterator_inputs',
-            'state_hands_checked', 'resplit_inputs', 'sibling_class_inputs')
+            'state_hands_checked', 'resplit_inputs', 'sibling_class_inputs',
+            'mixed_game_sequences')
 
 LOWISH = 'A2345678'
+
+
+def _short_tuple_lookups():
+    from pokerkit import state as _st
+    from pokerkit import lookups as _lk
+    out = []
+    for name in ('_HighHandOpeningLookup', '_LowHandOpeningLookup'):
+        cls = getattr(_st, name, None)
+        if cls is not None:
+            out.append(cls())
+    for name in ('StandardLookup', 'RegularLookup'):
+        out.append(getattr(_lk, name)())
+    return out
+
+
+LOOKUPS_FOR_SHORT_TUPLES = _short_tuple_lookups()
 # classes that share a deck/lookup/parent with another class: the same input
 # is also given to them right after (a cache keyed too coarsely would leak)
 SIBLINGS = {
@@ -278,6 +295,22 @@ def run_shard(seed, shard, of, tier, deadline):
         if rule == 'omaha' and len(hole) * len(board) and \
                 len(hole) + len(board) > 10:
             board = board[:4]
+        if rule == 'badugi' and rng.random() < 0.25:
+            # mixed-game session: the stud opening lookups (and the plain
+            # lookups) are asked about the same short card tuples first --
+            # a lookup-level memo shared between lookups would leak
+            from itertools import combinations as _comb
+            from pokerkit.state import State as _State
+            from pokerkit import lookups as _lk
+            allc = tuple(hole) + tuple(board)
+            for lk in LOOKUPS_FOR_SHORT_TUPLES:
+                for kk in (2, 3, 4):
+                    for sub in _comb(allc, kk):
+                        try:
+                            lk.get_entry_or_none(sub)
+                        except Exception:    # noqa: BLE001
+                            pass
+            res.counters['mixed_game_sequences'] += 1
         check_input(res, rng, clsname, hole, board)
         if rng.random() < 0.2 and hole and board:
             # the same cards split differently between hand and board (and,
